@@ -43,9 +43,17 @@ HdrMT == {"absent", "right", "wrong"}
 \* WithManifestPlatform (the child is fetched for the digest of the index entry, logged as `desc`); regdata:
 \* ManifestGet with a descriptor that carries the body as inline data
 Via == {"new", "reg", "ocidir", "regplat", "regdata"}
+\* how the caller of manifest.New spells the request (the order of the options and the shape of the
+\* descriptor are the caller's business and must not matter): std = raw, descriptor (digest only, when
+\* there is one), ref, header; ref_first = the ref before the descriptor; mt_desc = the descriptor also
+\* carries media type and size - and is given, without a digest, when no digest is expected from it -
+\* after the ref; mt_desc_first = the same before the ref
+Forms == {"std", "ref_first", "mt_desc", "mt_desc_first"}
+FormsOf(via) == IF via = "new" THEN Forms ELSE {"std"}
 FetchScenarios ==
-  {[kind |-> k, variant |-> v, desc |-> d, ref |-> r, hdr |-> h, hdrmt |-> m, via |-> via] :
-     k \in Kinds, v \in Variants, d \in Src, r \in Src, h \in Src, m \in HdrMT, via \in Via}
+  {x \in {[kind |-> k, variant |-> v, desc |-> d, ref |-> r, hdr |-> h, hdrmt |-> m, via |-> via, form |-> f] :
+            k \in Kinds, v \in Variants, d \in Src, r \in Src, h \in Src, m \in HdrMT, via \in Via, f \in Forms}
+     : x.form \in FormsOf(x.via)}
 \* the digest that governs the comparison
 Governing(x) == IF x.desc # "absent" THEN x.desc ELSE IF x.ref # "absent" THEN x.ref ELSE x.hdr
 MayReturn(x) == Governing(x) # "wrong"
